@@ -983,6 +983,7 @@ def confirm_session(check, name, vio, classify, describe):
     return status
 
 
+REPO_DATA = __import__("common").REPO + "/data"
 SEARCH_VALUES = ["ক", "্", "ি", "া", "ঁ", "র", "্য", "ৄ", "ে", "আ", "\u200c", "\u200d", "ু"]
 
 
@@ -1001,7 +1002,7 @@ def native_session_search(v):
         for combo in itertools.product(range(len(SEARCH_VALUES)), repeat=L):
             hist.append(combo)
     for combo in hist:
-        steps = [{"op": "new", "config": {"layout_json": lay, "database": "/repo/data", "opts": opts}}]
+        steps = [{"op": "new", "config": {"layout_json": lay, "database": REPO_DATA, "opts": opts}}]
         for k in combo:
             steps.append({"op": "key", "key": PLANT_KEYS[k], "mod": 0, "sel": 0})
         # drive to the end with the counterexample's event, repeated for backspace
@@ -1052,6 +1053,12 @@ def native_session_search(v):
             if (clause == "backspace_discards_only_the_waiting_sign" and ev["op"] == "backspace" and not ev.get("ctrl") and before.get("pending") is not None
                     and (st.get("buffer") != before.get("buffer") or st.get("pending") is not None)):
                 bad = True
+            if clause in ("scratch_list_belongs_to_the_text", "auxiliary_is_the_composed_text") and sug and sug.get("kind") == "full" and st.get("buffer"):
+                un = {0x2018: "'", 0x2019: "'", 0x201C: '"', 0x201D: '"'}
+                first = "".join(un.get(ord(ch), ch) for ch in (sug.get("list") or [""])[0])
+                kept = "".join(un.get(ord(ch), ch) for ch in ((st.get("suggestions") or [[0, "", 0]])[0][1]))
+                if first != st["buffer"] or kept != st["buffer"] or sug.get("aux") != st["buffer"]:
+                    bad = True
             if (clause == "backspace_pops_one_code_point" and ev["op"] == "backspace" and not ev.get("ctrl") and before.get("pending") is None
                     and before.get("buffer") and st.get("buffer") != before.get("buffer")[:-1]):
                 bad = True
